@@ -161,8 +161,8 @@ fn c19_owning_drop_2() {
     kani::cover!(unsafe { DMA[0].deallocs == 1 });
 }
 
-// hostile device, two steps (C07): it first reports more bytes than the buffer holds (the poll fails and the buffer is
-// not re-posted), then names the same - now not outstanding - buffer again
+// hostile device, two steps (C07): it first reports more bytes than the buffer holds (the poll fails; before fix 924c39b the buffer was
+// not re-posted - finding F8), then names the same buffer again
 // @harness props=C07 tier=quick timeout=1800 panic=clean
 #[kani::proof]
 #[kani::unwind(10)]
